@@ -38,7 +38,8 @@ def check(pid, tier, seed, replay=None):
                 # global settings rotate (the fast paths are allocation-free for every value and setting, not only the plain ones)
                 for enabled in (True, False):
                     chains.append({"a": "Chain", "chain": s, "ctx": ctxs[(i + (0 if enabled else 1)) % 3], "enabled": enabled, "fin": "Msg" if i % 2 == 0 else "Send",
-                                   "var": (i // 3 + (0 if enabled else 1)) % 3, "set": sets[(i + (0 if enabled else 3)) % len(sets)]})
+                                   "var": (i // 3 + (0 if enabled else 1)) % 3, "set": sets[(i + (0 if enabled else 3)) % len(sets)],
+                                   "wr": "fail" if i % 5 == 3 else ""})
                 if len(s) == 1:
                     # single-method chains: every argument value class under every setting
                     for var in range(3):
@@ -47,7 +48,8 @@ def check(pid, tier, seed, replay=None):
             meths = sorted({m for s in seqs for m in s})
             for i in range(3000 if thorough else 300):   # longer random chains, still within the pooled buffer
                 chains.append({"a": "Chain", "chain": [rng.choice(meths) for _ in range(rng.randint(3, 6))], "ctx": rng.choice(ctxs),
-                               "enabled": rng.random() < 0.7, "fin": rng.choice(["Msg", "Send"]), "var": rng.randrange(3), "set": rng.choice(sets)})
+                               "enabled": rng.random() < 0.7, "fin": rng.choice(["Msg", "Send"]), "var": rng.randrange(3), "set": rng.choice(sets),
+                               "wr": "fail" if rng.random() < 0.2 else ""})
         lines = [json.dumps(c) for c in chains]
         log("%s: %d chains %.0fs" % (pid, len(chains), time.time() - t0))
         ov = make_overlay(sc, "alloc", [{"path": p, "imports": {"sync": "vsync"}} for p in ("event.go", "array.go")], ["vsched", "vsync"], [])
